@@ -12,12 +12,14 @@
                          exc, before, after |-> [other |-> id, meaning |-> <<<<ids>>>>],
                          rb, ra |-> <<pairs>>]           \* view reads before / after
        before/after are projections of the message by INDEPENDENT reference decoders (lib/vf/viewsref.py): `other` is
-       the part of the message the view does not own (ids local to the event), `meaning` the decoded content.
+       the part of the message the view does not own (ids local to the event), `meaning` the decoded content; the path
+       view also reports `core`, the decoded NON-EMPTY segments (same ids), so that losing a real segment
+       (C34.writeback_content) is told apart from losing only empty ones (C34.writeback_meaning, finding F4).
 
    Clauses (only what the statement says; judged only for representable pair lists):
      C34.assign_raised / C34.assign_read   assignment fails / the view does not read back the same pairs in order
      C34.mutate                            a change made through the view is not what the view then reads
-     C34.writeback_raised / _other / _meaning / _read    writing the current value back changes the message       *)
+     C34.writeback_raised / _other / _content / _meaning / _read   writing the current value back changes the message *)
 EXTENDS Verif
 
 MonInit == [bad |-> <<>>, wit |-> {}, cur |-> <<>>]       \* cur: <<view, pairs>> entries, latest last
@@ -69,6 +71,7 @@ WritebackStep(m, ev) ==
       bad == IF ~ev.rep THEN <<>>
              ELSE IF ev.exc # "" THEN <<"C34.writeback_raised">> \o sig
              ELSE IF ev.after.other # ev.before.other THEN <<"C34.writeback_other">> \o sig
+             ELSE IF Get(ev.after, "core", <<>>) # Get(ev.before, "core", <<>>) THEN <<"C34.writeback_content">> \o sig
              ELSE IF ev.after.meaning # ev.before.meaning THEN <<"C34.writeback_meaning">> \o sig
              ELSE IF ev.ra # ev.rb THEN <<"C34.writeback_read">> \o sig
              ELSE <<>>
